@@ -128,6 +128,26 @@ fn encode_charwise_strict(id: i32, s: &str) -> Option<Vec<u8>> {
 
 /// A small repertoire of non-ASCII scalars representable in the page
 /// (computed with the oracle), used by generators.
+/// Every character below U+3000 that the page can represent (all of a single-byte page's upper half), plus a
+/// sample of the CJK / Hangul blocks: what a directed "whole repertoire" scenario stores.
+pub fn wide_repertoire(id: i32, max: usize) -> Vec<char> {
+    let mut out = Vec::new();
+    let ranges: [std::ops::RangeInclusive<u32>; 5] = [0x80..=0x2FFF, 0x3000..=0x30FF, 0x4E00..=0x4E7F, 0xAC00..=0xAC3F, 0xF8FF..=0xFFEF];
+    for r in ranges.iter() {
+        for u in r.clone() {
+            if out.len() >= max {
+                return out;
+            }
+            if let Some(c) = char::from_u32(u) {
+                if representable_char(id, c) {
+                    out.push(c);
+                }
+            }
+        }
+    }
+    out
+}
+
 pub fn repertoire(id: i32, max: usize) -> Vec<char> {
     let mut out = Vec::new();
     let probes: [std::ops::RangeInclusive<u32>; 8] = [
